@@ -51,6 +51,14 @@ FAMILIES = {
         "n": {"quick": 24, "thorough": 600},
         "shard": 4, "procs": 4,
     },
+    "life": {
+        "family": "life",
+        "coq_modules": ["Life"],
+        "in_type": "(bool * list lop)", "obs_type": "list lobs",
+        "corr": "life_corr_ok", "chk": "chk_life", "model": "lrun", "model_chk": True, "model_chk_fn": "(fun chk t => chk (fst t, lrun (fst t)))",
+        "n": {"quick": 60, "thorough": 1500},
+        "shard": 8, "procs": 4,
+    },
     "ttl": {
         "family": "ttl",
         "coq_modules": ["Json", "Crc", "Hlc", "Kv", "Store", "Trace", "Corr"],
@@ -121,6 +129,12 @@ PROPS = {
         "level_text": "Partial. Feed.v models checkpointed feeds action by action (backfill from the persisted checkpoint + 1, registration, one callback at a time, terminator: the event already pulled is still delivered, the rest of the queue is discarded, the checkpoint document is written with the highest delivered CAS and is itself a mutation posted to the other feeds). The persisted checkpoint never exceeds a delivered CAS in any schedule (checked on every trace). The full completeness statement (every stop/restart placement, every interleaving with writers) is REFUTED on the faithful model with replayable witnesses (C15_skip_refuted: consequence of the known findings KF-C08-order and KF-C09-gap); outside those windows the sched family executes generated schedules of writers, stops (also with events still queued and writers mid-post) and resumes on the real code under the hooks and compares every delivery, CAS and checkpoint exactly with the model, and the union of the runs must contain every document.",
         "level_note": "Schedules are generated (valid action lists over 2-4 writers and 1-2 feed names, in-memory and on-disk); atomicity of each action (transaction, postEvent's list read, queue push, callback) is assumed from the Go code. Trusted: Coq kernel + vm_compute, Go harness and its hook scheduler.",
         "assumptions": ["each action of Feed.v is atomic in the code (the hooks sit between them)", "the HLC on a constant clock hands out base+1, base+2, ... (exact CAS comparison)", "feeds use CheckpointPrefix 'cp'; Dump feeds are covered by C09's sequential part"],
+    },
+    "C16": {
+        "families": [{"family": "life"}],
+        "level_text": "Partial. Life.v models when feeds end: handles of one bucket, collections, the feed registry shared by all handles, live and dump feeds started through any handle, terminators, DropDataStore, Close (the last close of an on-disk bucket shuts the store down), CloseAndDelete, writes. Proved on the model for every state and step: an ended feed stays ended and receives nothing more (C16_ended_is_final); closing another feed's terminator, dropping another collection, or closing a handle that is not the last one of an on-disk bucket never ends a running feed (C16_independent). Tie to the code: the life family runs generated histories (1-3 handles, up to 3 collections, in-memory and on-disk) and compares, after every step, every feed's done channel and event count exactly with the model; the executable checker (ended is final and silent; a feed ends only for a cause that concerns it and a cause does end it; every running live feed receives each write of its collection) is evaluated on implementation and model traces. That the feed goroutine exits is inferred from its done channel; exactly-once closing of done is assumed from the single `defer close` in run().",
+        "level_note": "Observation after each step waits for the feed goroutines to settle (up to 400 ms): a termination slower than that would be reported as missing. Concurrent writers during termination are covered by the sched / ckpt families (C15). Trusted: Coq kernel + vm_compute, Go harness.",
+        "assumptions": ["each lifecycle call is one atomic step (bucket.mutex / cluster.lock)", "a closed done channel means the feed goroutine has left its loop"],
     },
     "C17": _kv("C17", "Full proof on the model: every successful mutation through any entry point raises the key's revision number by exactly one (1 on creation or re-creation after purge), failed calls leave it, and live events carry the stored number (C17_holds, all histories)."),
     "C03": {
